@@ -32,8 +32,10 @@ RULE = ("histories `new cap ct` + operations on two strings. Exhaustive box: cap
 ASSUMPTIONS = ["std::basic_string of libstdc++ 12 is the reference for spec validation (R2)",
                "default build of tetl (TETL_PRECONDITION compiled out); calls that std defines as throwing/UB and assign/constructor "
                "calls with len > Capacity are outside the compared domain (all four sides print `pre`)",
-               "strings are modelled as unsigned code units; the character type is a parameter of the harness only; wchar_t units "
-               "are kept below 2^31 (signed on this platform, same order as unsigned there)",
+               "strings are modelled as unsigned code units (32-bit patterns for wchar_t); wchar_t is signed on this platform, so the "
+               "driver evaluates compare / relational lines of ct=wchar on the images under u -> (u + 2^31) mod 2^32 (order "
+               "isomorphism from the signed to the natural order; `ordKey` in Tetl/C04/Driver.lean); negative wchar_t units are "
+               "generated in the unit-order group, the random histories keep units below 2^31",
                "self-aliasing arguments are explored for assign/append/+=/insert (whole string, sub-string, pointer into the "
                "characters [data(), data()+size()]); replace, the C-string overloads and pointers that include the terminator are "
                "never called with a pointer into the string they modify"]
@@ -64,8 +66,8 @@ THEOREMS.update({"find": ["Tetl.C04.Props.find_eq"] + _ARG,
                              "Tetl.C04.Props.replace_counterexample", "Tetl.C04.Props.replace_breaks_terminator_counterexample"]})
 THEOREMS.update({"swap": ["Tetl.C04.Props.swap_eq"], "substr": ["Tetl.C04.Props.substr_eq"],
                  "compare": ["Tetl.C04.Props.compare_sign", "Tetl.C04.Props.compare_pos_count_eq",
-                             "Tetl.C04.Props.compare_pos_count_pos_count_eq"],
-                 "rel": ["Tetl.C04.Props.compare_sign"], "new": ["Tetl.C04.Props.mk0_rep"],
+                             "Tetl.C04.Props.compare_pos_count_pos_count_eq", "Tetl.C04.Props.compare_wide_signed"],
+                 "rel": ["Tetl.C04.Props.compare_sign", "Tetl.C04.Props.compare_wide_signed"], "new": ["Tetl.C04.Props.mk0_rep"],
                  "state": ["Tetl.C04.Props.inv_history"], "raw": ["Tetl.C04.Props.inv_history"]})
 SEARCH_CAP = 400000
 
@@ -725,7 +727,7 @@ def generate(tier, seed):
     # multi-byte character types: code units whose order by value differs from the order of their low bytes (a byte-wise
     # memcmp on a little-endian target gets these wrong) and, for wchar_t (signed here), values of both signs
     for ct, cap, units in (("c16", 7, [0x00FF, 0x0100, 0x01FE, 0x0201, 0xFF00]), ("c32", 7, [0x00FF, 0x0100, 0xFFFF, 0x10000, 0x01000000]),
-                           ("wchar", 7, [0x00FF, 0x0100, 0x10000, 0x7FFFFF00, 0x01000000]),
+                           ("wchar", 7, [0x00FF, 0x0100, 0x10000, 0x7FFFFF00, 0x01000000]), ("wchar", 7, [0x7FFFFFFF, 0x80000000, 0xFFFFFFFF, 1, 0xFFFFFF00]),
                            ("c8", 7, [0x7F, 0x80, 0xFF, 1]), ("char", 7, [0x7F, 0x80, 0xFF, 1])):
         xs = [list(t) for n in (1, 2) for t in itertools.product(units, repeat=n)]
         for x in xs:
@@ -798,7 +800,5 @@ LEVEL_NOTE = ("Trusted: Lean kernel + propext/Classical.choice/Quot.sound; fidel
               "but has no positive theorem; on a line that hits a known finding only impl-vs-spec is evaluated (lib.evaluate stops at the "
               "first relation that fails), so there the model's mirror of the defect is checked by the counterexample theorems only.")
 CORRESPONDENCE_ONLY = [
-    "negative wchar_t code units (wchar_t is signed here): the model orders code units as naturals, which is char_traits::lt for char / char8_t / "
-    "char16_t / char32_t and for non-negative wchar_t values; comparisons of negative wchar_t units are generated and checked by C08 (string_view, "
-    "same char_traits), not here","replace(pos, count, …) with count > size()-pos (wrapped end pointer of str_replace; part of the known finding "
+    "replace(pos, count, …) with count > size()-pos (wrapped end pointer of str_replace; part of the known finding "
                        "F-C04-replace-overwrites-only when the lengths differ)"]
